@@ -246,7 +246,47 @@ def r2(repo, res, canon, pc, logic, plogic):
                                  'ok' if oks else 'the number of machines reserved is not the requested size')
 
 
+def r4_blocks(repo, res, canon, logic):
+    """R4 when the hand-back is not a method of its own (inlined into the allocation loop): judged
+    on the atomic blocks of the Cluster that take a machine out of the occupied pool."""
+    occ = [k for k, v in CU.POOLS.items() if v == 'occupied'][0]
+    ok = True
+    why = ''
+    n = 0
+    f0 = None
+    for u in CU.dedupe(CU.units(repo)):
+        effs = u.all_effects()
+        rem = [ef for ef in effs if ef.loc == occ and ef.kind == 'remove']
+        if not rem or CU.raises(u):
+            continue
+        f0 = u.func
+        m = rem[0].arg
+        apps = [ef for ef in effs if ef.kind == 'append' and ef.arg == m and CU.pool_of(ef.loc) in ('idle', 'available')]
+        must = set()
+        for e in u.events:
+            if e.kind == 'test':
+                must |= logic.must(e.node, e.frame, e.pol)
+        res_l = [l for l in must if l.atom.endswith(' in ' + IDLE)]
+        if len(apps) != 1:
+            ok, why = False, 'a machine leaving the occupied pool is appended to %d free pools' % len(apps)
+            continue
+        n += 1
+        dest = CU.pool_of(apps[0].loc)
+        if not res_l:
+            ok, why = False, 'the machine is returned without testing whether the observation holds a reservation'
+        elif res_l[0].pol and not (dest == 'idle' and apps[0].loc == '%s[%s]' % (IDLE, res_l[0].atom[:-len(' in ' + IDLE)])):
+            ok, why = False, ('a machine whose observation still holds a reservation is returned to %s, not to that '
+                              'observation\'s idle list: another workflow or ingest can take it' % apps[0].loc)
+        elif not res_l[0].pol and dest != 'available':
+            ok, why = False, 'a machine of an unreserved observation is returned to %s' % apps[0].loc
+    f0 = f0 or repo.func('Cluster.allocate_task_to_cluster')
+    (res.ok if ok and n else res.bad)('C09.R4', f0, None, 'machine returns to idle[obs] while obs is reserved, else to available',
+                                      'ok' if ok and n else why or 'no block returns a machine from the occupied pool')
+
+
 def r4(repo, res, canon, logic):
+    if not repo.has_func('Cluster._set_machine_available'):
+        return r4_blocks(repo, res, canon, logic)
     f = repo.func('Cluster._set_machine_available')
     fr = Frame(f)
     paths = cached_paths(f)
